@@ -120,6 +120,7 @@ type Run struct {
 	entry      *State
 	entryBinds map[string]Val
 	inputs     []inputVar // named symbolic inputs for model projection
+	modelIn    []inputVar
 	oblNames   map[string]int
 	ghostUF    map[string]bool
 }
